@@ -2,6 +2,7 @@ package main
 
 import (
 	"encoding/json"
+	"sync"
 	"fmt"
 	"math/rand"
 	"net/http"
@@ -485,7 +486,7 @@ func runServeD1(r *Run, g *serveGen, owner string, timeout time.Duration) {
 	_ = http.MethodGet
 }
 
-// ---- D2 for C08: redirects for plain and percent-encoded paths, validated by Obs_Redirect -------------------
+// ---- D2 for C08/C11: requests with plain and percent-encoded paths, validated by Obs_Serve -------------------
 
 func decodedSegments(escaped string) ([]string, bool) {
 	parts := strings.Split(escaped, "/")
@@ -500,24 +501,61 @@ func decodedSegments(escaped string) ([]string, bool) {
 	return out, true
 }
 
-func runRedirectD2(r *Run, rng *rand.Rand) {
-	rt, err := fox.New(fox.WithRedirectTrailingSlash(true), fox.WithMiddlewareFor(fox.RedirectHandler, redirectProbe))
+// runeChars splits a string into one-"character" strings rune by rune (a multi-byte rune is an opaque atom
+// for the specification: the matcher only ever inspects '/', '.', '{', '*').
+func runeChars(s string) []string {
+	out := []string{}
+	for _, rn := range s {
+		out = append(out, string(rn))
+	}
+	return out
+}
+
+func runServeD2(r *Run, rng *rand.Rand, owner string) {
+	patterns := []string{"/{x}/", "/d/{x}", "/e/{x}/{y}/", "/s/*{w}/end", "/t/{x}/end/", "/i/{x}/"}
+	methods := []string{"GET", "POST", "CONNECT"}
+	noMethod, autoOptions := rng.Intn(2) == 0, rng.Intn(2) == 0
+	opts := []fox.GlobalOption{fox.WithRedirectTrailingSlash(true), fox.WithMiddlewareFor(fox.RedirectHandler, redirectProbe),
+		fox.WithNoRouteHandler(specialHandler("noroute", 404))}
+	if noMethod {
+		opts = append(opts, fox.WithNoMethodHandler(specialHandler("nomethod", 405)))
+	}
+	if autoOptions {
+		opts = append(opts, fox.WithOptionsHandler(specialHandler("options", 200)))
+	}
+	rt, err := fox.New(opts...)
 	if err != nil {
 		failTool("fox.New: %v", err)
 	}
-	for _, m := range []string{"GET", "POST", "CONNECT"} {
-		for _, p := range []string{"/{x}/", "/d/{x}", "/e/{x}/{y}/", "/s/*{w}/end", "/t/{x}/end/"} {
-			rt.MustHandle(m, p, routeHandler(m+" "+p))
+	var table []string
+	idx := map[string]int{}
+	for _, m := range methods {
+		for _, p := range patterns {
+			opt := "red"
+			var ro []fox.RouteOption
+			if strings.HasPrefix(p, "/i/") && m != "CONNECT" {
+				opt = "ign"
+				ro = append(ro, fox.WithIgnoreTrailingSlash(true))
+			}
+			if m == "POST" && p == "/d/{x}" {
+				continue // a path served for GET only, so that 405 occurs
+			}
+			rt.MustHandle(m, p, routeHandler(m+" "+p), ro...)
+			table = append(table, fmt.Sprintf("[m |-> %s, pat |-> %s, opt |-> %s]", tlaStr(m), tlaChars(p), tlaStr(opt)))
+			idx[m+" "+p] = len(table)
 		}
 	}
-	segs := []string{"a", "a:b", "https:evil.com", "a?b", "a#b", "a%b", "a b", "é", "a/b", "日本", "a;b", "a=b&c", "..", "a%2fb", "@", "//x", "a\\b", "%", "?", "#"}
+	gen := fmt.Sprintf("---- MODULE Gen_ObsServe ----\nGenTable == <<%s>>\nGenCfg == [noMethod |-> %s, autoOptions |-> %s]\nGenHost == %s\n====\n",
+		strings.Join(table, ",\n  "), tlaBool(noMethod), tlaBool(autoOptions), tlaChars("h.example"))
+	segs := []string{"a", "a:b", "https:evil.com", "a?b", "a#b", "a%b", "a b", "é", "a/b", "日本", "a;b", "a=b&c", "..", ".", "a%2fb", "@", "//x", "a\\b", "%", "?", "#", "end", "d"}
 	var obs []map[string]any
 	var desc []string
-	n := pick(r, 1500, 20000)
+	kinds := map[string]int{}
+	n := pick(r, 2500, 30000)
 	for k := 0; k < n; k++ {
 		seg := func() string { return segs[rng.Intn(len(segs))] }
 		var rawSegs []string
-		switch rng.Intn(5) {
+		switch rng.Intn(7) {
 		case 0:
 			rawSegs = []string{"", seg()}
 		case 1:
@@ -526,21 +564,23 @@ func runRedirectD2(r *Run, rng *rand.Rand) {
 			rawSegs = []string{"", "e", seg(), seg()}
 		case 3:
 			rawSegs = []string{"", "s", seg(), seg(), "end", ""}
+		case 4:
+			rawSegs = []string{"", "i", seg()}
+		case 5:
+			rawSegs = []string{"", "d", seg()}
 		default:
 			rawSegs = []string{"", "t", seg(), "end"}
 		}
-		// build decoded and escaped forms; sometimes send only the decoded path (as net/http does when the
-		// default encoding round-trips)
 		esc := make([]string, len(rawSegs))
-		for i, s := range rawSegs {
-			esc[i] = url.PathEscape(s)
+		for i, sg := range rawSegs {
+			esc[i] = url.PathEscape(sg)
 		}
 		escaped := strings.Join(esc, "/")
 		u, perr := url.ParseRequestURI(escaped)
 		if perr != nil {
 			continue
 		}
-		method := []string{"GET", "POST", "GET", "CONNECT"}[rng.Intn(4)]
+		method := []string{"GET", "POST", "GET", "CONNECT", "OPTIONS", "PUT"}[rng.Intn(6)]
 		query := []string{"", "q=1", "a=b&c=%2F", "x=%3F"}[rng.Intn(4)]
 		req, cp := newRequest(method, "h.example", u.Path, query)
 		req.URL.RawPath = u.RawPath
@@ -548,61 +588,110 @@ func runRedirectD2(r *Run, rng *rand.Rand) {
 		if u.RawPath != "" {
 			routed = u.RawPath
 		}
+		if strings.Contains(routed, "//") {
+			continue // empty segments are outside the routing properties
+		}
 		w := newPlainWriter()
 		rt.ServeHTTP(w, req)
-		if cp.handler != "redirect" {
-			continue // only redirects are validated here; who gets one is decided by the D1 vectors
-		}
-		base := &url.URL{Scheme: "http", Host: "h.example", Path: u.Path, RawPath: u.RawPath, RawQuery: query}
-		loc := w.h.Get("Location")
-		var resolvedSegs []string
-		resolvedQuery := "<unparsable>"
-		if lu, e := url.Parse(loc); e == nil {
-			res := base.ResolveReference(lu)
-			if res.Host == "h.example" && res.Scheme == "http" {
-				if sg, ok := decodedSegments(res.EscapedPath()); ok {
-					resolvedSegs = sg
+		o := map[string]any{"m": method, "path": runeChars(routed), "query": query, "kind": "", "route": 0, "params": [][][]string{}, "code": w.status,
+			"routed": []string{}, "resolved": []string{}, "resolvedquery": ""}
+		switch {
+		case cp.ran != 1:
+			o["kind"] = fmt.Sprintf("%d handlers ran", cp.ran)
+		case cp.handler == "redirect":
+			o["kind"] = "redirect"
+			base := &url.URL{Scheme: "http", Host: "h.example", Path: u.Path, RawPath: u.RawPath, RawQuery: query}
+			loc := w.h.Get("Location")
+			resolved := []string{"<unparsable Location>"}
+			rq := "<unparsable>"
+			if lu, e := url.Parse(loc); e == nil {
+				res := base.ResolveReference(lu)
+				if res.Host == "h.example" && res.Scheme == "http" {
+					if sg, ok := decodedSegments(res.EscapedPath()); ok {
+						resolved = sg
+					} else {
+						resolved = []string{"<undecodable>"}
+					}
+					rq = res.RawQuery
+				} else {
+					resolved = []string{"<absolute: " + res.String() + ">"}
 				}
-				resolvedQuery = res.RawQuery
-			} else {
-				resolvedSegs = []string{"<absolute: " + res.String() + ">"}
 			}
-		} else {
-			resolvedSegs = []string{"<unparsable Location>"}
+			var routedSegs []string
+			if u.RawPath != "" {
+				routedSegs, _ = decodedSegments(routed)
+			} else {
+				routedSegs = strings.Split(routed, "/")
+			}
+			o["routed"], o["resolved"], o["resolvedquery"] = routedSegs, resolved, rq
+		case cp.handler == "noroute" || cp.handler == "nomethod" || cp.handler == "options":
+			o["kind"] = cp.handler
+		default:
+			o["kind"] = "route"
+			o["route"] = idx[cp.handler]
+			ps := [][][]string{}
+			for _, kv := range cp.params {
+				ps = append(ps, [][]string{runeChars(kv[0]), runeChars(kv[1])})
+			}
+			o["params"] = ps
 		}
-		// the routed path as fox sees it: RawPath when set (escaped), the decoded path otherwise
-		var routedSegs []string
-		if u.RawPath != "" {
-			routedSegs, _ = decodedSegments(routed)
-		} else {
-			routedSegs = strings.Split(routed, "/")
-		}
-		if resolvedSegs == nil {
-			resolvedSegs = []string{"<undecodable>"}
-		}
-		obs = append(obs, map[string]any{"method": method, "routed": routedSegs, "resolved": resolvedSegs, "query": query, "resolvedquery": resolvedQuery,
-			"code": w.status, "clean": fox.CleanPath(routed) == routed})
-		desc = append(desc, fmt.Sprintf("%s %s?%s -> Location %q", method, routed, query, loc))
+		kinds[o["kind"].(string)]++
+		obs = append(obs, o)
+		desc = append(desc, fmt.Sprintf("%s %s?%s -> %v (Location %q)", method, routed, query, o["kind"], w.h.Get("Location")))
 	}
-	if len(obs) == 0 {
-		failTool("redirect driver produced no redirect")
+	for _, k := range []string{"route", "redirect", "noroute"} {
+		if kinds[k] == 0 {
+			failTool("serve driver produced no %s reply", k)
+		}
 	}
-	rej := r.runObs("Obs_Redirect", obs, pick(r, 5*time.Minute, 30*time.Minute))
-	ids := make([]int, 0, len(rej))
-	for i := range rej {
+	rejected := map[int]json.RawMessage{}
+	var mu sync.Mutex
+	res := r.runTLC(tlcOpts{Module: "Obs_Serve", Gen: map[string]string{"Gen_ObsServe.tla": gen}, Files: map[string]string{"obs.ndjson": obsFile(obs)},
+		Timeout: pick(r, 5*time.Minute, 30*time.Minute),
+		OnVec: func(b []byte) {
+			var v struct {
+				I    int             `json:"i"`
+				Want json.RawMessage `json:"want"`
+			}
+			if json.Unmarshal(b, &v) == nil {
+				mu.Lock()
+				rejected[v.I] = v.Want
+				mu.Unlock()
+			}
+		}})
+	res.mustClean("Obs_Serve")
+	if res.Distinct < 2*int64(len(obs)) {
+		failTool("Obs_Serve examined %d of %d observations", res.Distinct/2, len(obs))
+	}
+	ids := make([]int, 0, len(rejected))
+	for i := range rejected {
 		ids = append(ids, i)
 	}
 	sort.Ints(ids)
 	seen := map[string]bool{}
 	for _, i := range ids {
 		o := obs[i-1]
-		key := fmt.Sprintf("redirect routed=%q", strings.Join(o["routed"].([]string), "/"))
+		var want struct {
+			Kind string `json:"kind"`
+		}
+		json.Unmarshal(rejected[i], &want)
+		own := "C08"
+		special := func(k string) bool { return k == "noroute" || k == "nomethod" || k == "options" }
+		if special(want.Kind) && special(o["kind"].(string)) {
+			own = "C11"
+		}
+		if owner != "" && own != owner {
+			continue
+		}
+		key := fmt.Sprintf("serve-trace %s path=%q", o["m"], strings.Join(o["path"].([]string), ""))
 		if seen[key] {
 			continue
 		}
 		seen[key] = true
-		r.violation(key, map[string]any{"kind": "trace", "request": desc[i-1], "prescribed": map[string]any{"resolved_segments": json.RawMessage(rej[i]), "query": o["query"]}, "obtained": o})
+		r.violation(key, map[string]any{"kind": "trace", "request": desc[i-1], "noMethod": noMethod, "autoOptions": autoOptions,
+			"prescribed": json.RawMessage(rejected[i]), "obtained": o})
 	}
-	r.addCov("redirects_recorded_and_validated", int64(len(obs)))
+	r.addCov("served_requests_recorded_and_validated", int64(len(obs)))
+	r.addCov("recorded_redirects", int64(kinds["redirect"]))
 	r.addCov("traces_validated_against_impl", int64(len(obs)))
 }
